@@ -607,27 +607,46 @@ where
         builder.get_result()
     }
 
-    fn build_inner<B: LRBuilder<'i, I, C, S, P, TK>, C, S>(&self, context: &mut C, builder: &mut B)
+    /// Returns the span of the built (sub)tree.
+    fn build_inner<B: LRBuilder<'i, I, C, S, P, TK>, C, S>(
+        &self,
+        context: &mut C,
+        builder: &mut B,
+    ) -> SourceSpan
     where
         C: Context<'i, I, S, TK> + Default,
         S: State,
         P: Copy,
     {
+        let mut span = Context::<I, S, TK>::span(&*self.root);
         match &*self.root {
             SPPFTree::Term { token, .. } => {
-                context.set_span(Context::<I, S, TK>::span(&*self.root));
+                context.set_span(span);
                 builder.shift_action(context, token.clone())
             }
             SPPFTree::NonTerm { prod, .. } => {
                 let children = self.children();
-                children.iter().for_each(|c| {
-                    c.build_inner(context, builder);
-                });
-                context.set_span(Context::<I, S, TK>::span(&*self.root));
+                let spans: Vec<_> = children
+                    .iter()
+                    .map(|c| c.build_inner(context, builder))
+                    .collect();
+                // The span stored in the forest node is calculated from the
+                // first alternatives of the children known at the time of the
+                // reduction. This tree may use other alternatives, or children
+                // added later (right-nulled), so its span is calculated from
+                // the children it is actually built from.
+                if let (Some(first), Some(last)) = (spans.first(), spans.last()) {
+                    span = SourceSpan {
+                        start: first.start,
+                        end: last.end,
+                    };
+                }
+                context.set_span(span);
                 builder.reduce_action(context, *prod, children.len())
             }
             SPPFTree::Empty => (),
         }
+        span
     }
 
     /// For the given tree index finds the right tree root in the given slice of
